@@ -14,7 +14,21 @@ def impl(case):
     import numpy as np
     from paulie import get_pauli_string, PauliString, PauliStringLinear, second_moment
     n = case["n"]
-    g = get_pauli_string(case["gens"])
+    if case.get("history"):
+        # one collection object: queried (basis and twirl), edited in place through the public interface, queried again
+        from harness import cls
+        h = case["history"]
+        g = get_pauli_string(h["gens"])
+        g.get_full_quadratic_basis()
+        second_moment(PauliStringLinear([(1.0, "X" * (2 * n))]), g)
+        for st in h["steps"]:
+            cls.apply_step(g, st)
+            if h.get("query_between"):
+                g.get_full_quadratic_basis()
+        if [str(s) for s in g.get()] != case["gens_padded"]:
+            return {"skip": "the edited collection does not hold the expected strings (C10)"}
+    else:
+        g = get_pauli_string(case["gens"])
     basis = g.get_full_quadratic_basis()
     out = {"basis": [_terms(q) for q in basis]}
     d = 2 ** n
@@ -97,6 +111,15 @@ def main():
         gp = [s + "I" * (n - len(s)) for s in g]
         cases.append({"n": n, "gens": g, "gens_padded": gp, "rank": n <= 2, "fix_limit": 4 if n >= 3 else None, "ops": [rand_op(ck.rng, 2 * n) for _ in range(2)],
                       "ab": [[ck.rng.randint(-2, 2), ck.rng.randint(-2, 2)], [ck.rng.randint(-2, 2), ck.rng.randint(-2, 2)]]})
+    # in-place histories at n<=2: the final collection is judged exactly like a fresh one
+    from harness import cls
+    hb = [(n, g) for n, g in base if n <= 2 and len(g[0]) == n]
+    for n, g in hb[: (30 if ck.quick else 150)]:
+        steps, cur = cls.gen_steps(ck.rng, n, g, 1, 2)
+        if not cur or len(cur) > 3:
+            continue
+        cases.append({"n": n, "gens": cur, "gens_padded": cur, "rank": True, "fix_limit": None, "ops": [rand_op(ck.rng, 2 * n) for _ in range(2)],
+                      "ab": [[1, 1], [ck.rng.randint(-2, 2), 1]], "history": {"gens": g, "steps": steps, "query_between": ck.rng.random() < 0.5}})
     res = ck.impl("c16", cases, per_case_s=600, procs=15)
     req = []
     for c in cases:
@@ -108,6 +131,8 @@ def main():
     nt = set()
     stats = {"basis_sizes": {}}
     for i, (c, r) in enumerate(zip(cases, res)):
+        if "skip" in r:
+            stats["skipped"] = stats.get("skipped", 0) + 1; continue
         if "exc" in r:
             ck.fail(None, "quadratic basis / twirl raised %s %s on %s" % (r["exc"], r.get("msg", ""), c["gens"]), {"case": c, "result": r}); continue
         bad = []
@@ -137,7 +162,7 @@ def main():
         if len(r["basis"]) >= 2 and any(len(q) >= 2 for q in r["basis"]):
             nt.add((c["n"], tuple(c["gens_padded"])))
         if bad:
-            ck.fail(None, "n=%d G=%s: %s" % (c["n"], c["gens"], "; ".join(bad)[:800]), {"case": c, "differences": bad})
+            ck.fail(None, "n=%d G=%s%s: %s" % (c["n"], c["gens"], (" after the in-place history %s" % json.dumps(c["history"])) if c.get("history") else "", "; ".join(bad)[:800]), {"case": c, "differences": bad})
     ck.cov["evaluations"] = len(cases)
     ck.cov["distinct_nontrivial"] = len(nt)
     ck.cov["rule"] = ("collections of <=2 generators on 1..2 qubits (sampled exhaustively) plus structured/uniform n=2%s; operators as Gaussian-integer combinations on 2n qubits; "
@@ -145,6 +170,7 @@ def main():
                       "twirl: exact rational coefficients vs the model, linearity, idempotence, fixes the basis, invariant output, orthogonal residual (dense, tol 1e-9); non-trivial = >=2 symmetries, one with >=2 terms"
                       % (" and a few n=3" if ck.quick else " and n=3"))
     ck.cov["samples"] = [{k: c[k] for k in ("n", "gens", "ops")} for c in cases[:3]]
+    stats["history_cases"] = sum(1 for c in cases if c.get("history"))
     ck.cov["distribution"] = stats
     ck.cov["traces_validated_against_impl"] = len(cases)
     ck.finish(assumptions=["completeness (count = dimension) is the basis theorem of arXiv:2502.16404, not proved: validated per input by a floating-point rank computation for n<=2",
